@@ -201,15 +201,17 @@ contract(
 # ------------------------------------------------------------------------------------------------ find_urls (C01, C03, C10, C12)
 lemma("printable-slice", props=["C12"], vars={"x": "bytes", "a": "int", "b": "int"}, hyps=["matches(rb'[!-~]*', x)"], goal="matches(rb'[!-~]*', x[a:b])",
       notes="a language of the form C* is closed under taking slices", trusted=True)
-contract("multidecoder.decoders.network._is_printable", props=["C01"], trusted=True, types={"b": "bytes"}, returns="bool",
-         notes="ASSUMED total (str.isprintable; UnicodeDecodeError is caught in the function)")
 contract(
-    "multidecoder.decoders.network.normalize_percent_encoding", props=["C10", "C12"], trusted=True, types={"uri": "bytes"}, returns="tuple[bytes, str]",
+    "multidecoder.decoders.network.normalize_percent_encoding", props=["C10", "C12"],
+    types={"uri": "bytes", "@resub_callback": "never-longer: every %XX is replaced by one byte or by its upper-cased spelling; printable: a replacement of printable ASCII is printable ASCII"},
+    returns="tuple[bytes, str]",
     ensures={"printable-stays-printable": "implies(matches(rb'[!-~]*', uri), matches(rb'[!-~]*', result[0]))", "never-longer": "len(result[0]) <= len(uri)",
-             "label": "result[1] in ('', 'escape.percent')"},
-    notes="ASSUMED (re.sub with a callback is outside pyvc): every %XX is replaced by one unreserved byte or by its upper-cased spelling; value and label are compared with the "
-          "reference norm_pct on every URL of the bounded stand-in (C10)",
+             # labelled exactly when normalisation shortened the text (C10)
+             "label": "result[1] == ('escape.percent' if len(result[0]) < len(uri) else '')"},
+    notes="the substitution itself (re.sub with the nested callback normalize_percent) is ASSUMED as stated in the evidence; value and label are also compared with the reference norm_pct on "
+          "every URL of the bounded stand-in (C10)",
 )
+contract("multidecoder.decoders.network._is_printable", props=["C01"], types={"b": "bytes"}, returns="bool")
 contract(
     "multidecoder.decoders.network.is_url",
     props=["C01", "C10", "C12"],
